@@ -393,6 +393,15 @@ func (w *world) await(pid string, gate bool, wantStopped int, sync int, what str
 	if waitDeath && !gate && sync == 0 {
 		sendProbe()
 	}
+	// Waiting for a sentinel that a live actor must process: if it does not show up soon, a second
+	// sentinel is sent from the same goroutine.  Being handled while the first one never was means the
+	// first one was lost or overtaken (FIFO per sender holds across restarts and replays) - an exact
+	// divergence from the model instead of a timeout.  The delay only decides WHEN to probe.
+	follow := 0
+	var followTimer <-chan time.Time
+	if (sync != 0 || gate) && !waitDeath {
+		followTimer = time.After(2 * time.Second)
+	}
 	for {
 		if d := w.diverged(pid, wantStopped, probeN); d != "" {
 			return fmt.Errorf("%w: %s (while waiting for %s)", ErrDiverged, d, what)
@@ -413,6 +422,12 @@ func (w *world) await(pid string, gate bool, wantStopped int, sync int, what str
 			if n == sync && sync != 0 {
 				sync = 0
 			}
+			if follow != 0 && n == follow && sync != 0 {
+				return fmt.Errorf("%w: a sentinel sent after sentinel %d was handled, sentinel %d itself never was: it was lost or overtaken (while waiting for %s)", ErrDiverged, sync, sync, what)
+			}
+			if follow != 0 && n == follow && gate {
+				return fmt.Errorf("%w: a sentinel sent after the gate message was handled, yet the actor never entered the gate: the gate message (or the Started gate) was lost or overtaken (while waiting for %s)", ErrDiverged, what)
+			}
 			if n == probeN && probeN != 0 {
 				if probes >= 2 {
 					return fmt.Errorf("%w: the actor is still handling messages sent after the batch that should have stopped it (while waiting for %s)", ErrDiverged, what)
@@ -420,6 +435,13 @@ func (w *world) await(pid string, gate bool, wantStopped int, sync int, what str
 				sendProbe()
 			}
 		case <-w.evNote:
+		case <-followTimer:
+			followTimer = nil
+			if sync != 0 || gate {
+				w.probeSeq++
+				follow = 2000000 + w.probeSeq
+				w.e.Send(w.pid, SyncMsg{N: follow})
+			}
 		case <-deadline:
 			return fmt.Errorf("%w: %s", ErrInconclusive, what)
 		}
